@@ -38,7 +38,8 @@ theorem gossip_keeps_incarnation (E : Env) (c : Ctx) :
 /-- The refutation rule, below the maximum: a suspicion at an incarnation `k` not lower than the
     instance's own makes the incarnation `k + 1` (strictly greater than `k`); an older suspicion leaves
     it alone; the identity is kept; the refutation is gossiped (datagrams of the current identity). -/
-theorem suspicion_is_refuted (E : Env) (k : Nat) (c : Ctx) (hmax : max k c.s.inc ≠ 65535) :
+theorem suspicion_is_refuted (E : Env) (k : Nat) (c : Ctx) (hmax : max k c.s.inc ≠ 65535)
+    (hlive : c.s.conn ≠ .undead) :
     match handleSelfUpdate E k .suspect c with
     | .ok _ c' => c'.s.inc = (if c.s.inc ≤ k then satAdd16 (max k c.s.inc) else c.s.inc) ∧ c'.s.id = c.s.id
     | .err _ c' => c'.s.inc = (if c.s.inc ≤ k then satAdd16 (max k c.s.inc) else c.s.inc) ∧ c'.s.id = c.s.id
@@ -46,7 +47,8 @@ theorem suspicion_is_refuted (E : Env) (k : Nat) (c : Ctx) (hmax : max k c.s.inc
   unfold handleSelfUpdate
   simp only [bind_run, getS_run]
   have hm : ¬ (max k c.s.inc == 65535) = true := by simpa using hmax
-  simp only [hm, Bool.false_eq_true, if_false]
+  have hu : ¬ (c.s.conn == Conn.undead) = true := by simpa using hlive
+  simp only [hu, hm, Bool.false_eq_true, if_false]
   have hcmp : Gen.increaseIncarnation c.s.inc k = decide (c.s.inc ≤ k) := by
     unfold Gen.increaseIncarnation
     rcases Nat.lt_trichotomy c.s.inc k with h | h | h
@@ -69,6 +71,13 @@ theorem suspicion_is_refuted (E : Env) (k : Nat) (c : Ctx) (hmax : max k c.s.inc
     | stuck x => trivial
     | ok u c' => exact ⟨hg.1, hg.2.1⟩
     | err e c' => exact ⟨hg.1, hg.2.1⟩
+
+/-- A defunct instance (it left, or was declared down and could not rejoin) never refutes: a suspicion
+    about its dead identity changes nothing and sends nothing. False before the `fix:` commit for F8. -/
+theorem defunct_instance_does_not_refute (E : Env) (k : Nat) (c : Ctx) (h : c.s.conn = .undead) :
+    handleSelfUpdate E k .suspect c = .ok () c := by
+  unfold handleSelfUpdate
+  simp [h]
 
 /-- strictly greater than the suspected incarnation (the point of the refutation) -/
 theorem refutation_exceeds_suspicion (k own : Nat) (h1 : own ≤ k) (h2 : max k own ≠ 65535) (h3 : k ≤ 65535) :
